@@ -28,6 +28,9 @@ mod real {
     };
     use tsv_harness::*;
 
+    /// Second file of a directory-mode case: delimiters 4/7, one wrong and one right expectation.
+    const B_FIXED: &str = "====\nb one\n====\nx = 1;\n-------\n\n(wrong)\n\n===\nb two\n:error\n===\ny = ;\n---\n\n(source)\n";
+
     const LANGS: [(&str, &str); 2] = [("main", "stmt"), ("other", "lst")];
 
     fn hx(b: &[u8]) -> String {
@@ -172,7 +175,7 @@ mod real {
             }
         }
 
-        fn update(&self, path: &Path, filter: char) -> (String, bool) {
+        fn update(&self, run_path: &Path, path: &Path, filter: char) -> (String, bool) {
             let old = SystemTime::UNIX_EPOCH + Duration::from_secs(946_684_800);
             if let Ok(f) = std::fs::OpenOptions::new().write(true).open(path) {
                 let _ = f.set_modified(old);
@@ -184,7 +187,7 @@ mod real {
             let mut parser = Parser::new();
             parser.set_language(map.values().next().unwrap()).unwrap();
             let opts = TestOptions {
-                path: path.to_path_buf(),
+                path: run_path.to_path_buf(),
                 debug: false,
                 debug_graph: false,
                 include: if filter == 'i' { tree_sitter_cli::fuzz::EXAMPLE_INCLUDE.clone() } else { None },
@@ -208,26 +211,40 @@ mod real {
         }
 
         /// Run one corpus file through the real code and emit the case.
-        pub fn run_case(&mut self, out: &mut impl Write, cid: &str, filter: char, content: &[u8]) {
+        /// `filter`: n / i / x = update of the single file; N / I / X = the same filter, but the update is run on the
+        /// DIRECTORY that contains the case file (`a_case.txt`) and a second, fixed file (`b_fixed.txt`).
+        pub fn run_case(&mut self, out: &mut impl Write, cid: &str, filter_spec: char, content: &[u8]) {
             self.n += 1;
+            let dir_mode = filter_spec.is_ascii_uppercase();
+            let filter = filter_spec.to_ascii_lowercase();
             let dir = self.scratch.join(format!("t{}", self.n)).join("corpus");
             std::fs::create_dir_all(&dir).unwrap();
-            let path = dir.join("case.txt");
+            let path = dir.join(if dir_mode { "a_case.txt" } else { "case.txt" });
             std::fs::write(&path, content).unwrap();
-            writeln!(out, "spec {cid} {filter} {}", hx(content)).unwrap();
+            let bpath = dir.join("b_fixed.txt");
+            let run_path = if dir_mode { dir.clone() } else { path.clone() };
+            if dir_mode {
+                std::fs::write(&bpath, B_FIXED).unwrap();
+                std::fs::write(dir.join(".hidden.txt"), "===\nhidden\n===\nx\n---\n\n(wrong)\n").unwrap();
+            }
+            writeln!(out, "spec {cid} {filter_spec} {}", hx(content)).unwrap();
             writeln!(out, "case {cid}").unwrap();
             writeln!(out, "os {}", hx(std::env::consts::OS.as_bytes())).unwrap();
             writeln!(out, "orig {}", hx(content)).unwrap();
             let ent0 = entries(&path);
-            let (res1, wrote1) = self.update(&path, filter);
+            let bent0 = if dir_mode { entries(&bpath) } else { vec![] };
+            let (res1, wrote1) = self.update(&run_path, &path, filter);
             let after1 = std::fs::read(&path).unwrap();
             let ent1 = entries(&path);
-            let (res2, _wrote2) = self.update(&path, filter);
+            let bafter1 = if dir_mode { std::fs::read(&bpath).unwrap() } else { vec![] };
+            let bent1 = if dir_mode { entries(&bpath) } else { vec![] };
+            let (res2, _wrote2) = self.update(&run_path, &path, filter);
             let after2 = std::fs::read(&path).unwrap();
+            let bafter2 = if dir_mode { std::fs::read(&bpath).unwrap() } else { vec![] };
             let ent2 = entries(&path);
             // table (language, input) -> rendering, for every test the real code saw at any stage
             let mut keys: BTreeSet<(String, Vec<u8>)> = BTreeSet::new();
-            for e in ent0.iter().chain(ent1.iter()).chain(ent2.iter()) {
+            for e in ent0.iter().chain(ent1.iter()).chain(ent2.iter()).chain(bent0.iter()).chain(bent1.iter()) {
                 keys.insert((String::new(), e.input.clone()));
                 for l in &e.languages {
                     keys.insert((l.clone(), e.input.clone()));
@@ -239,7 +256,8 @@ mod real {
                 }
             }
             writeln!(out, "filter {filter}").unwrap();
-            let names: BTreeSet<String> = ent0.iter().chain(ent1.iter()).chain(ent2.iter()).map(|e| e.name.clone()).collect();
+            let names: BTreeSet<String> =
+                ent0.iter().chain(ent1.iter()).chain(ent2.iter()).chain(bent0.iter()).chain(bent1.iter()).map(|e| e.name.clone()).collect();
             for n in &names {
                 writeln!(out, "nm {} {}", hx(n.as_bytes()), Self::name_match(filter, n) as u8).unwrap();
             }
@@ -250,6 +268,11 @@ mod real {
             writeln!(out, "wrote1 {}", wrote1 as u8).unwrap();
             writeln!(out, "after1 {}", hx(&after1)).unwrap();
             writeln!(out, "after2 {}", hx(&after2)).unwrap();
+            if dir_mode {
+                writeln!(out, "borig {}", hx(B_FIXED.as_bytes())).unwrap();
+                writeln!(out, "bafter1 {}", hx(&bafter1)).unwrap();
+                writeln!(out, "bafter2 {}", hx(&bafter2)).unwrap();
+            }
             writeln!(out, "run").unwrap();
             let _ = std::fs::remove_dir_all(self.scratch.join(format!("t{}", self.n)));
         }
@@ -462,7 +485,7 @@ mod real {
     fn parse_spec_line(line: &str) -> (char, &str) {
         let w: Vec<&str> = line.split_whitespace().collect();
         let h = *w.last().unwrap();
-        let flt = if w.len() >= 2 && ["n", "i", "x"].contains(&w[w.len() - 2]) { w[w.len() - 2].chars().next().unwrap() } else { 'n' };
+        let flt = if w.len() >= 2 && ["n", "i", "x", "N", "I", "X"].contains(&w[w.len() - 2]) { w[w.len() - 2].chars().next().unwrap() } else { 'n' };
         (flt, h)
     }
 
@@ -523,6 +546,8 @@ mod real {
                 2 | 3 => 'x',
                 _ => 'n',
             };
+            // a quarter of the files are updated through their directory (two files + a hidden one)
+            let flt = if frng.chance(1, 4) { flt.to_ascii_uppercase() } else { flt };
             world.run_case(&mut out, &format!("g{i}"), flt, f);
             cases += 1;
         }
